@@ -5,6 +5,7 @@ from functools import partial
 import time
 from typing import Dict, Optional, List, Tuple
 
+from mpire.signal import DisableKeyboardInterruptSignal
 from mpire.utils import NonPickledSyncManager, format_seconds
 
 
@@ -68,8 +69,11 @@ class WorkerInsights:
             # We need to use a special wrapper which sets the manager to None when pickled. For some reason Python 
             # won't use the __getstate__/__setstate__ of this class when passing the object to a worker, so we move
             # the logic to the wrapper instead.
-            self.insights_manager = NonPickledSyncManager(self.use_dill)
-            self.insights_manager.start()
+            # The manager process is started with the keyboard interrupt signal disabled, just like the workers and the
+            # tqdm manager: an interrupt in the middle of it would leave a manager process behind that nobody shuts down
+            with DisableKeyboardInterruptSignal():
+                self.insights_manager = NonPickledSyncManager(self.use_dill)
+                self.insights_manager.start()
             self.insights_manager_lock = self.ctx.Lock()
             self.worker_start_up_time = self.ctx.Array(ctypes.c_double, self.n_jobs, lock=False)
             self.worker_init_time = self.ctx.Array(ctypes.c_double, self.n_jobs, lock=False)
